@@ -118,15 +118,18 @@ class KGFnWrapper:
             # (only the lookup is guarded: a KeyError raised by the function itself must reach the caller)
             if isinstance(current, KGFn) and not isinstance(current, KGCall):
                 # Use the current definition
-                if len(args) != current.arity:
-                    raise RuntimeError(f"Klong function called with {len(args)} but expected {current.arity}")
-                fn_args = [self._to_klong_list(x) if isinstance(x, list) else x for x in args]
-                return self.klong.call(KGCall(current.a, [*fn_args], current.arity))
+                return self._apply(current, args)
 
-        if len(args) != self.fn.arity:
-            raise RuntimeError(f"Klong function called with {len(args)} but expected {self.fn.arity}")
+        return self._apply(self.fn, args)
+
+    def _apply(self, fn, args):
+        # a projection (f::g(1;)) takes as many arguments as it has holes; they are filled in by the interpreter
+        holes = sum(1 for a in fn.args if a is None) if isinstance(fn.args, list) else 0
+        expected = holes or fn.arity
+        if len(args) != expected:
+            raise RuntimeError(f"Klong function called with {len(args)} but expected {expected}")
         fn_args = [self._to_klong_list(x) if isinstance(x, list) else x for x in args]
-        return self.klong.call(KGCall(self.fn.a, [*fn_args], self.fn.arity))
+        return self.klong.call(KGCall(fn if holes else fn.a, [*fn_args], expected))
 
 
 class KGCall(KGFn):
